@@ -166,6 +166,7 @@ func checkExpr(t *rapid.T, rec *ev.Rec, e *node, src string, rows [][]*val) {
 	emptyOr := orWithEmptyRange(src)
 	emptyDup := emptyPointDup(src)
 	refold := rq.shape != "plain" && absorbingConstKept(src)
+	refoldConsts := rq.shape != "plain" && multiConstAndOr(src)
 	poolMerge := constPoolMerge(src)
 	for rowi, row := range rows {
 		var canon strings.Builder
@@ -267,6 +268,7 @@ func checkExpr(t *rapid.T, rec *ev.Rec, e *node, src string, rows [][]*val) {
 				known(ww.lossy, "int64-dnum-lossy-compare", " (where form)"),
 				known(ww.negPrefix, "negative-number-packed-prefix-order", " (where form)"),
 				known(refold, "transform-refold-drops-operands", " (where form)"),
+				known(refoldConsts, "transform-refold-combines-constants", " (where form)"),
 				known(emptyOr, "or-with-empty-range", " (where form)"),
 				known(emptyDup && tb == "t1", "composite-index-empty-point-duplicates", " (where form)"):
 				return
